@@ -128,6 +128,7 @@ type vMonitor struct {
 	restartsAlive int // restarts that happened while >=1 crunch-run was alive
 	lockFails     int
 	heldNow       map[cloud.InstanceID]bool
+	intended      map[cloud.InstanceID]worker.IdleBehavior // what the operator last asked for
 	// pool-side view of "crunch-run --detach" calls that have not returned to
 	// the pool yet (key vm/uuid) and the StartContainer decision behind each
 	inflight     map[string]int
@@ -854,6 +855,7 @@ func (m *vMonitor) setIdleBehavior(p pool, gen int, id cloud.InstanceID, ib work
 	m.mu.Lock()
 	m.ev(gen, "mgmt-"+string(ib), string(id), "", fmt.Sprintf("err=%v", err))
 	if err == nil {
+		m.intended[id] = ib
 		if ib == worker.IdleBehaviorHold {
 			m.heldNow[id] = true
 		} else {
